@@ -1,3 +1,99 @@
-/-! # C02 — property theorems (stub: not built yet) -/
+import PymtlVerif.Proofs.Rtl
+import PymtlVerif.Proofs.Kahn
+/-!
+# C02 — within a cycle every reader runs after its writer, in every scheduler
+
+* the overlap test used for pairing writers with readers is exact at the bit level
+  (`Connectable._overlap` / parent-chain walk ⇔ sharing a bit: `overlap_spec`, `rngsOverlap_spec`);
+* the schedule check the driver applies to every real schedule (`topoB`) says precisely "each block exactly
+  where every block that writes a bit it reads comes earlier" (`topo_iff_writer_before_reader`);
+* Kahn's algorithm, with an *arbitrary* tie-break (random shuffle in SimpleSchedulePass, priority queue in
+  HeuristicTopoPass), never emits a block twice, puts every edge's source before its target, and when it
+  stops early the leftovers contain a cycle (`kahn_sound`, `kahn_leftover`) — the UpblkCyclicError case.
+
+The method-constraint BFS of `GenDAGPass._process_methods` is not modelled (partial; covered by the
+correspondence check's run-time call-order recording only).
+-/
 namespace PV.C02
+open PV.Rtl
+
+/-- two non-empty ranges overlap (the code's `_overlap` on slices of one signal) iff they share a bit -/
+theorem overlap_spec (a b : Rng) (ha : 0 < a.w) (hb : 0 < b.w) :
+    a.overlap b = true ↔ ∃ v, a.has v ∧ b.has v := by
+  constructor
+  · intro h
+    have := rngsOverlap_true [a] [b] (by simpa using ha) (by simpa using hb) (by simpa [rngsOverlap] using h)
+    obtain ⟨v, ⟨x, hx, hxv⟩, ⟨y, hy, hyv⟩⟩ := this
+    simp only [List.mem_singleton] at hx hy
+    subst hx hy
+    exact ⟨v, hxv, hyv⟩
+  · intro ⟨v, h1, h2⟩; exact overlap_of_common a b v h1 h2
+
+/-- footprint lists overlap iff some bit is in both (whole signals, fields, nested fields and slices are
+all bit ranges of the top-level signal) -/
+theorem rngsOverlap_spec (xs ys : List Rng) (hx : ∀ r ∈ xs, 0 < r.w) (hy : ∀ r ∈ ys, 0 < r.w) :
+    rngsOverlap xs ys = true ↔ ∃ v, inRngs xs v ∧ inRngs ys v := by
+  constructor
+  · exact rngsOverlap_true xs ys hx hy
+  · intro ⟨v, h1, h2⟩
+    cases h : rngsOverlap xs ys with
+    | true => rfl
+    | false => exact absurd h2 (rngsOverlap_false xs ys h v h1)
+
+theorem rngsOverlap_comm (xs ys : List Rng) : rngsOverlap xs ys = rngsOverlap ys xs := by
+  have hc : ∀ a b : Rng, a.overlap b = b.overlap a := by
+    intro a b; unfold Rng.overlap
+    rw [Bool.eq_iff_iff]; simp only [Bool.and_eq_true, beq_iff_eq, decide_eq_true_eq]
+    constructor <;> (intro ⟨⟨h1, h2⟩, h3⟩; exact ⟨⟨h1.symm, h3⟩, h2⟩)
+  rw [Bool.eq_iff_iff]
+  unfold rngsOverlap
+  simp only [List.any_eq_true]
+  constructor
+  · intro ⟨x, hx, y, hy, h⟩; exact ⟨y, hy, x, hx, by rw [hc]; exact h⟩
+  · intro ⟨y, hy, x, hx, h⟩; exact ⟨x, hx, y, hy, by rw [hc]; exact h⟩
+
+/-- a schedule passes the check iff, for every two different positions, a block that writes a bit the
+other reads stands earlier — "every reader runs after its writer", each block being a list position
+(exactly once) -/
+theorem topo_iff_writer_before_reader (bs : List Blk) :
+    topoB bs = true ↔
+      ∀ (i j : Nat) (hi : i < bs.length) (hj : j < bs.length), i ≠ j →
+        rngsOverlap bs[i].writes bs[j].reads = true → i < j := by
+  unfold topoB
+  rw [pairwiseB_iff, List.pairwise_iff_getElem]
+  constructor
+  · intro h i j hi hj hne hov
+    rcases Nat.lt_or_gt_of_ne hne with hlt | hgt
+    · exact hlt
+    · exfalso
+      have := h j i hj hi hgt
+      rw [rngsOverlap_comm] at this
+      simp [hov] at this
+  · intro h i j hi hj hlt
+    cases hov : rngsOverlap bs[i].reads bs[j].writes with
+    | false => rfl
+    | true =>
+      exfalso
+      rw [rngsOverlap_comm] at hov
+      have := h j i hj hi (by omega) hov
+      omega
+
+/-- Kahn's algorithm with any tie-break: no duplicates, every scheduled edge in order -/
+theorem kahn_sound {α : Type} [DecidableEq α] (pick : List α → Nat) (V : List α) (E : List (α × α)) (fuel : Nat) :
+    (PV.Kahn.kahn pick V E fuel []).Nodup ∧
+    ∀ e ∈ E, e.2 ∈ PV.Kahn.kahn pick V E fuel [] →
+      ∃ pre post, PV.Kahn.kahn pick V E fuel [] = pre ++ e.1 :: post ∧ e.2 ∈ post :=
+  PV.Kahn.kahn_sound pick V E fuel
+
+/-- with fuel |V|: every vertex is emitted unless the leftovers are closed under predecessors (a cycle) -/
+theorem kahn_leftover {α : Type} [DecidableEq α] (pick : List α → Nat) (V : List α) (E : List (α × α)) :
+    ∀ v ∈ V, v ∉ PV.Kahn.kahn pick V E V.length [] →
+      ∃ e ∈ E, e.2 = v ∧ e.1 ∉ PV.Kahn.kahn pick V E V.length [] :=
+  PV.Kahn.kahn_leftover pick V E V.length [] trivial (by simp) (by simp)
+
+/-! ## non-vacuity -/
+example : Rng.overlap ⟨0, 0, 6⟩ ⟨0, 4, 4⟩ = true ∧ Rng.overlap ⟨0, 0, 4⟩ ⟨0, 4, 4⟩ = false := by decide
+example : PV.Kahn.kahn (fun _ => 0) [1, 2, 3] [(1, 2), (2, 3)] 3 [] = [1, 2, 3] := by decide
+example : PV.Kahn.kahn (fun _ => 0) [1, 2, 3] [(1, 2), (2, 3), (3, 2)] 3 [] = [1] := by decide
+
 end PV.C02
